@@ -1,4 +1,5 @@
 import DclabModel.Lemmas.Down
+import DclabModel.Model.Filter
 /-!
 # C16 — Downsampling returns a reproducible subset of the requested size
 
@@ -393,6 +394,284 @@ theorem witnesses_outside_guard :
   · intro h; exact h.1 ⟨rfl, by decide⟩
   · intro h
     exact h.2 ⟨by decide, by decide, by decide, Or.inl (by decide +kernel)⟩
+
+/-! ## The finding classes are exactly the failing inputs -/
+
+/-- **`downsample_grid` fails iff the input lies in one of the two recorded classes**, and the
+kind of failure is determined by the class: `IndexError` exactly on `InF17`, `ValueError`
+exactly on `InF16` (the two classes are disjoint). -/
+theorem grid_fails_iff (choice : List Nat → Nat → List Nat) (hc : ChoiceOK choice)
+    (a b : List Val) (hlen : a.length = b.length) (k : Nat) (ri : Bool) :
+    (grid choice a b k ri = .error .index ↔ InF17 a b k) ∧
+    (grid choice a b k ri = .error .value ↔ InF16 a k ri) ∧
+    ((∃ e, grid choice a b k ri = .error e) ↔ (InF16 a k ri ∨ InF17 a b k)) := by
+  have hgl := length_goodMask a b hlen
+  have hV := cnt_le_length (goodMask a b)
+  have hdisj : InF16 a k ri → ¬ InF17 a b k := by
+    intro h16 h17
+    have := h16.2; have := h17.2.1; omega
+  have h17 : InF17 a b k → grid choice a b k ri = .error .index :=
+    grid_F17_class choice a b hlen k ri
+  have h16 : InF16 a k ri → grid choice a b k ri = .error .value := by
+    intro h; rw [h.1]; exact grid_F16_class choice a b hlen k h.2
+  have hok : ¬ InF16 a k ri → ¬ InF17 a b k → ∀ e, grid choice a b k ri ≠ .error e := by
+    intro n16 n17 e he
+    obtain ⟨oa, ob, mask, h, _⟩ := grid_count_partial choice hc a b hlen k ri ⟨n16, n17⟩
+    rw [h] at he; cases he
+  refine ⟨⟨?_, h17⟩, ⟨?_, h16⟩, ⟨?_, ?_⟩⟩
+  · intro he
+    by_cases c17 : InF17 a b k
+    · exact c17
+    · by_cases c16 : InF16 a k ri
+      · rw [h16 c16] at he; cases he
+      · exact absurd he (hok c16 c17 _)
+  · intro he
+    by_cases c16 : InF16 a k ri
+    · exact c16
+    · by_cases c17 : InF17 a b k
+      · rw [h17 c17] at he; cases he
+      · exact absurd he (hok c16 c17 _)
+  · rintro ⟨e, he⟩
+    by_cases c16 : InF16 a k ri
+    · exact Or.inl c16
+    · by_cases c17 : InF17 a b k
+      · exact Or.inr c17
+      · exact absurd he (hok c16 c17 _)
+  · rintro (h | h)
+    · exact ⟨_, h16 h⟩
+    · exact ⟨_, h17 h⟩
+
+/-! ## `get_downsampled_scatter` end to end: filter → scale → validity → downsample → mask -/
+
+/-- **The returned mask selects exactly the returned events** – for every filter, every
+pattern of invalid values, both scales: the returned (unscaled) `x`, `y` are the dataset's
+columns at the mask, the mask refers to ALL events (length `len(ds)`) although the selection
+`idx` was made among the FILTERED events (length `#filtered`), it only selects filtered
+events, and it selects as many events as are returned. -/
+theorem scatter_mask_selects_returned (choice : List Nat → Nat → List Nat) (lg : Rat → Rat)
+    (all : List Bool) (xcol ycol : List Val) (hx : xcol.length = all.length)
+    (hy : ycol.length = all.length) (xlog ylog : Bool) (k : Nat) (ri : Bool)
+    (ox oy : List Val) (mask : List Bool)
+    (h : getScatter choice lg all xcol ycol xlog ylog k ri true = .ok (ox, oy, some mask)) :
+    ox = sel mask xcol ∧ oy = sel mask ycol ∧ mask.length = all.length ∧
+    (∀ i, mask.getD i false = true → all.getD i false = true) ∧
+    cnt mask = ox.length ∧ oy.length = ox.length ∧
+    ∃ idx, mask = scatter all idx ∧ idx.length = cnt all := by
+  unfold getScatter at h
+  simp only at h
+  split at h
+  · cases h
+  · rename_i oa ob idx hgr
+    simp only [if_true] at h
+    injection h with h
+    simp only [Prod.mk.injEq, Option.some.injEq] at h
+    obtain ⟨rfl, rfl, rfl⟩ := h
+    have hlx : (sel all xcol).length = cnt all := length_sel _ _ hx.symm
+    have hly : (sel all ycol).length = cnt all := length_sel _ _ hy.symm
+    have hlen : (applyScale lg xlog (sel all xcol)).length
+        = (applyScale lg ylog (sel all ycol)).length := by
+      rw [length_applyScale, length_applyScale, hlx, hly]
+    have hil := (grid_result_is_masked_input choice _ _ hlen k ri oa ob idx hgr).2.2
+    rw [length_applyScale, hlx] at hil
+    refine ⟨(sel_scatter _ _ _).symm, (sel_scatter _ _ _).symm, length_scatter _ _,
+      fun i => scatter_le _ _ i, ?_, ?_, idx, rfl, hil⟩
+    · rw [cnt_scatter _ _ hil, length_sel _ _ (by rw [hil, hlx])]
+    · rw [length_sel _ _ (by rw [hil, hly]), length_sel _ _ (by rw [hil, hlx])]
+
+/-- `ret_mask` only adds the mask: the returned values are the same with and without it -/
+theorem scatter_retmask_irrelevant (choice : List Nat → Nat → List Nat) (lg : Rat → Rat)
+    (all : List Bool) (xcol ycol : List Val) (xlog ylog : Bool) (k : Nat) (ri : Bool) :
+    (∀ e, getScatter choice lg all xcol ycol xlog ylog k ri true = .error e ↔
+          getScatter choice lg all xcol ycol xlog ylog k ri false = .error e) ∧
+    (∀ ox oy, (∃ m, getScatter choice lg all xcol ycol xlog ylog k ri true = .ok (ox, oy, some m)) ↔
+          getScatter choice lg all xcol ycol xlog ylog k ri false = .ok (ox, oy, none)) := by
+  unfold getScatter
+  simp only
+  cases hg : grid choice (applyScale lg xlog (sel all xcol)) (applyScale lg ylog (sel all ycol)) k ri with
+  | error e0 => simp
+  | ok v =>
+    obtain ⟨oa, ob, idx⟩ := v
+    simp only [if_true, Bool.false_eq_true, if_false]
+    refine ⟨fun e => by simp, fun ox oy => ?_⟩
+    constructor
+    · rintro ⟨m, hm⟩
+      injection hm with hm
+      simp only [Prod.mk.injEq] at hm
+      rw [hm.1, hm.2.1]
+    · intro hm
+      injection hm with hm
+      simp only [Prod.mk.injEq] at hm
+      exact ⟨_, by rw [hm.1, hm.2.1]⟩
+
+/-- **Exact count at the dataset level (outside F16/F17 on the scaled filtered data).** The
+number of returned events is the request when at least that many events are eligible and all
+eligible events otherwise (request 0: all); eligible = filtered events, with `remove_invalid`
+only those whose SCALED values are valid (`scatter_eligible_dataset`). -/
+theorem scatter_count_partial (choice : List Nat → Nat → List Nat) (hc : ChoiceOK choice)
+    (lg : Rat → Rat) (all : List Bool) (xcol ycol : List Val) (hx : xcol.length = all.length)
+    (hy : ycol.length = all.length) (xlog ylog : Bool) (k : Nat) (ri : Bool)
+    (hg : Guard (applyScale lg xlog (sel all xcol)) (applyScale lg ylog (sel all ycol)) k ri) :
+    ∃ ox oy mask, getScatter choice lg all xcol ycol xlog ylog k ri true = .ok (ox, oy, some mask) ∧
+      cnt mask = (if k = 0 then scatterEligible lg all xcol ycol xlog ylog ri
+                  else min k (scatterEligible lg all xcol ycol xlog ylog ri)) ∧
+      ox.length = cnt mask ∧ oy.length = cnt mask := by
+  have hlx : (sel all xcol).length = cnt all := length_sel _ _ hx.symm
+  have hly : (sel all ycol).length = cnt all := length_sel _ _ hy.symm
+  have hlen : (applyScale lg xlog (sel all xcol)).length
+      = (applyScale lg ylog (sel all ycol)).length := by
+    rw [length_applyScale, length_applyScale, hlx, hly]
+  obtain ⟨oa, ob, idx, hgr, hcnt, _, _⟩ := grid_count_partial choice hc _ _ hlen k ri hg
+  have hget : getScatter choice lg all xcol ycol xlog ylog k ri true
+      = .ok (sel idx (sel all xcol), sel idx (sel all ycol), some (scatter all idx)) := by
+    unfold getScatter
+    simp only [hgr, if_true]
+  obtain ⟨_, _, _, _, h5, h6, _⟩ := scatter_mask_selects_returned choice lg all xcol ycol hx hy
+    xlog ylog k ri _ _ _ hget
+  have hil := (grid_result_is_masked_input choice _ _ hlen k ri oa ob idx hgr).2.2
+  rw [length_applyScale, hlx] at hil
+  refine ⟨_, _, _, hget, ?_, h5.symm, by rw [h6, h5]⟩
+  rw [cnt_scatter _ _ hil, hcnt]
+  rfl
+
+/-- eligibility in dataset terms: the filtered events, with `remove_invalid` those filtered
+events whose scaled x and scaled y are both valid -/
+theorem scatter_eligible_dataset (lg : Rat → Rat) (all : List Bool) (xcol ycol : List Val)
+    (hx : xcol.length = all.length) (xlog ylog : Bool) (ri : Bool) :
+    scatterEligible lg all xcol ycol xlog ylog ri =
+      if ri then cnt (List.zipWith (fun q v => q && v) all
+                        (goodMask (applyScale lg xlog xcol) (applyScale lg ylog ycol)))
+      else cnt all := by
+  unfold scatterEligible eligible
+  cases ri with
+  | true =>
+    simp only [if_true]
+    rw [applyScale_sel, applyScale_sel, goodMask_sel, cnt_sel_eq]
+  | false =>
+    simp only [Bool.false_eq_true, if_false]
+    rw [length_applyScale, length_sel _ _ hx.symm]
+
+/-- **With `remove_invalid`, validity is decided on the SCALED values**: every returned event
+has a valid scaled x and a valid scaled y (no hypothesis on the random source). -/
+theorem scatter_removes_invalid_scaled (choice : List Nat → Nat → List Nat) (lg : Rat → Rat)
+    (all : List Bool) (xcol ycol : List Val) (xlog ylog : Bool) (k : Nat) (retMask : Bool)
+    (ox oy : List Val) (om : Option (List Bool))
+    (h : getScatter choice lg all xcol ycol xlog ylog k true retMask = .ok (ox, oy, om)) :
+    (∀ v ∈ applyScale lg xlog ox, v.isValid = true) ∧
+    (∀ v ∈ applyScale lg ylog oy, v.isValid = true) := by
+  unfold getScatter at h
+  simp only at h
+  split at h
+  · cases h
+  · rename_i oa ob idx hgr
+    have hox : ox = sel idx (sel all xcol) ∧ oy = sel idx (sel all ycol) := by
+      cases retMask with
+      | true =>
+        simp only [if_true] at h
+        injection h with h
+        simp only [Prod.mk.injEq] at h
+        exact ⟨h.1.symm, h.2.1.symm⟩
+      | false =>
+        simp only [Bool.false_eq_true, if_false] at h
+        injection h with h
+        simp only [Prod.mk.injEq] at h
+        exact ⟨h.1.symm, h.2.1.symm⟩
+    obtain ⟨rfl, rfl⟩ := hox
+    -- `idx` is the grid stage's `keep`, which is below `goodMask` of the scaled columns
+    have hsub : ∀ i, idx.getD i false = true →
+        (goodMask (applyScale lg xlog (sel all xcol)) (applyScale lg ylog (sel all ycol))).getD i false = true := by
+      unfold grid at hgr
+      split at hgr
+      · cases hgr
+      · rename_i keep hk
+        simp only [if_true] at hgr
+        injection hgr with hgr
+        simp only [Prod.mk.injEq] at hgr
+        obtain ⟨_, _, rfl⟩ := hgr
+        exact gridKeep_sub_good choice _ _ k keep hk
+    constructor
+    · rw [applyScale_sel]
+      exact sel_forall Val.isValid idx _ (fun i hi => (goodMask_getD _ _ i (hsub i hi)).1)
+    · rw [applyScale_sel]
+      exact sel_forall Val.isValid idx _ (fun i hi => (goodMask_getD _ _ i (hsub i hi)).2)
+
+/-- on a log axis with `remove_invalid` every returned value is a positive finite number -/
+theorem scatter_log_returns_positive (choice : List Nat → Nat → List Nat) (lg : Rat → Rat)
+    (all : List Bool) (xcol ycol : List Val) (ylog : Bool) (k : Nat) (retMask : Bool)
+    (ox oy : List Val) (om : Option (List Bool))
+    (h : getScatter choice lg all xcol ycol true ylog k true retMask = .ok (ox, oy, om)) :
+    ∀ v ∈ ox, ∃ q, v = .fin q ∧ 0 < q := by
+  intro v hv
+  have h1 := (scatter_removes_invalid_scaled choice lg all xcol ycol true ylog k retMask ox oy om h).1
+  unfold applyScale at h1
+  simp only [if_true] at h1
+  exact (logV_valid_iff lg v).1 (h1 _ (List.mem_map_of_mem hv))
+
+/-- witness: validity on the UNSCALED data is the wrong notion – `-1` is a valid number but
+has no logarithm; with `remove_invalid` the event is not returned and not counted as eligible -/
+theorem scatter_unscaled_validity_witness :
+    getScatter (fun pool k => pool.take k) (fun q => q) [true, true, true, false]
+      [.fin (-1), .fin 2, .fin 3, .fin 4] [.fin 1, .fin 5, .nan, .fin 1] true false 0 true true
+      = .ok ([.fin 2], [.fin 5], some [false, true, false, false]) ∧
+    cnt (goodMask (sel [true, true, true, false] [.fin (-1), .fin 2, .fin 3, .fin 4])
+                  (sel [true, true, true, false] [.fin 1, .fin 5, .nan, .fin 1])) = 2 ∧
+    scatterEligible (fun q => q) [true, true, true, false]
+      [.fin (-1), .fin 2, .fin 3, .fin 4] [.fin 1, .fin 5, .nan, .fin 1] true false true = 1 := by
+  decide +kernel
+
+/-! ## The event limit on top of manual exclusions -/
+
+/-- **The limited selection has exactly `min(limit, #qualifying)` events, where qualifying
+includes the manual exclusions** (limit 0: all qualifying events); only qualifying events
+that are not excluded by hand are selected. -/
+theorem limit_with_manual_count (choice : List Nat → Nat → List Nat) (hc : ChoiceOK choice)
+    (limit : Nat) (qual manual : List Bool) :
+    cnt (limitSel choice limit qual manual) =
+      (if limit = 0 then cnt (List.zipWith (fun q m => q && m) qual manual)
+       else min limit (cnt (List.zipWith (fun q m => q && m) qual manual))) ∧
+    (limitSel choice limit qual manual).length = min qual.length manual.length ∧
+    ∀ i, (limitSel choice limit qual manual).getD i false = true →
+      qual.getD i false = true ∧ manual.getD i false = true := by
+  unfold limitSel
+  simp only
+  generalize hpre : List.zipWith (fun q m => q && m) qual manual = pre
+  have hplen : pre.length = min qual.length manual.length := by
+    rw [← hpre, List.length_zipWith]
+  have hpsub : ∀ i, pre.getD i false = true → qual.getD i false = true ∧ manual.getD i false = true := by
+    intro i hi; rw [← hpre] at hi; exact zipWith_and_getD _ _ i hi
+  by_cases hl : limit > 0
+  · rw [if_pos hl]
+    have hs := rand_sel choice (fun _ : Bool => true) (List.replicate (cnt pre) true) limit false
+    have hn := rand_cnt choice hc (fun _ : Bool => true) (List.replicate (cnt pre) true) limit false
+    have hlen : (rand choice (fun _ : Bool => true) (List.replicate (cnt pre) true) limit false).2.length
+        = cnt pre := by rw [hs.2]; simp
+    refine ⟨?_, by rw [length_scatter, hplen], fun i hi => hpsub i (scatter_le _ _ i hi)⟩
+    rw [cnt_scatter _ _ hlen, hn.2, hn.1]
+    have : limit ≠ 0 := by omega
+    simp [this, randEligible]
+  · rw [if_neg hl]
+    have : limit = 0 := by omega
+    exact ⟨by simp [this], hplen, hpsub⟩
+
+/-- bridge to the filter model of property C03: with an active limit `limitSel` is C03's
+`limitL` applied to the conjunction that already contains the manual exclusions – so
+`C03.history_all_eq_spec` (every operation history ends in `spec`, whose last stage this is)
+carries `limit_with_manual_count` to every history of filter operations -/
+theorem limitSel_eq_limitL (choice : List Nat → Nat → List Nat) (limit : Nat) (hl : limit > 0)
+    (qual manual : List Bool) :
+    limitSel choice limit qual manual =
+      DclabModel.Filter.limitL choice limit (List.zipWith (fun q m => q && m) qual manual) := by
+  unfold limitSel DclabModel.Filter.limitL
+  simp only [hl, if_true]
+
+/-- witness: applying the manual exclusions AFTER the limit returns fewer events than the
+property demands (4 qualifying events, one excluded by hand, limit 2: the limit keeps events
+0 and 1, the manual exclusion then removes event 0 – one event remains although 3 qualify) -/
+theorem limit_then_manual_witness :
+    cnt (limitThenManual (fun pool k => pool.take k) 2 [true, true, true, true]
+          [false, true, true, true]) = 1 ∧
+    cnt (limitSel (fun pool k => pool.take k) 2 [true, true, true, true]
+          [false, true, true, true]) = 2 := by
+  decide +kernel
 
 /-! ## Non-vacuity -/
 
